@@ -170,6 +170,18 @@ pub fn run(scn: &MScn, oracles: &[Oracle], out: &mut Outcome, fp: &mut Fp, tr: &
                         Err(p) => fail!("panic-in-step", p),
                     };
                     let recs = w.log.take();
+                    // "take" empties the observer whether or not the host reads the iterator to its end: now
+                    // and then only the first entry is pulled; nothing may be left behind (that step's sets
+                    // are then not compared)
+                    let partial_take = has(Oracle::Observer) && (step_no + scn.entropy) % 11 == 3;
+                    if partial_take {
+                        let first = w.sim.observer.take_mem_accesses().next();
+                        let rest = w.sim.observer.take_mem_accesses().count();
+                        if rest != 0 {
+                            fail!("observer-take-not-clearing", format!("take_mem_accesses() was read up to its first entry ({:?}) and dropped; {rest} entries were still in the observer afterwards", first.map(|(a, _)| a)));
+                        }
+                        out.bump("probe.partial-take");
+                    }
                     let acc: Vec<(u16, lc3_ensemble::sim::observer::AccessSet)> = w.sim.observer.take_mem_accesses().collect();
                     if has(Oracle::Observer) && keep_marks {
                         // a host that inspects the observer after a step sees these marks; untracked host
@@ -465,7 +477,7 @@ pub fn run(scn: &MScn, oracles: &[Oracle], out: &mut Outcome, fp: &mut Fp, tr: &
                     }
 
                     // ---- C28 observer
-                    if has(Oracle::Observer) {
+                    if has(Oracle::Observer) && !partial_take {
                         let accm: BTreeMap<u16, lc3_ensemble::sim::observer::AccessSet> = acc.iter().copied().collect();
                         let mut all: BTreeSet<u16> = accm.keys().copied().collect();
                         all.extend(m.reads.iter().copied());
